@@ -305,6 +305,7 @@ func (H) Gen(prop string, seed uint64, tier string) *hx.Case {
 		violP, viols = 0.12, []string{"bad-sig", "spent-input", "immature", "overspend", "double-in-block"}
 	}
 	best := tip
+	var retry []int
 	var made []*ledger.Node
 	now := cfg.Now0
 	for i := 0; i < nblocks; i++ {
@@ -353,6 +354,9 @@ func (H) Gen(prop string, seed uint64, tier string) *hx.Case {
 		if r.Chance(violP) {
 			if len(c05) > 0 && r.Chance(0.85) {
 				mut = c05[r.Intn(len(c05))]
+				if r.Chance(0.12) {
+					mut = ledger.C05Boundary[r.Intn(len(ledger.C05Boundary))]
+				}
 				if o.NTx == 0 {
 					o.NTx = 2
 				}
@@ -391,7 +395,11 @@ func (H) Gen(prop string, seed uint64, tier string) *hx.Case {
 			continue
 		}
 		boundary := len(o.Viol) > 3 && o.Viol[:3] == "ok-"
-		if (o.Viol != "" && !boundary || mut != "" && mut != "time-future") && n.Clause == "" {
+		mutOK := len(mut) > 3 && mut[:3] == "ok-"
+		if mutOK && n.Clause != "" {
+			panic("generator: boundary mutation " + mut + " made the block invalid: " + n.Clause)
+		}
+		if (o.Viol != "" && !boundary || mut != "" && mut != "time-future" && !mutOK) && n.Clause == "" {
 			// the generator failed to break the rule it wanted to break: keep the block as a valid one, but say so
 			b.Label = "intended-" + o.Viol + mut + "-but-valid"
 			generatorRejects++
@@ -430,12 +438,48 @@ func (H) Gen(prop string, seed uint64, tier string) *hx.Case {
 			}
 		}
 	}
+	if (prop == "C06" || prop == "C07") && r.Chance(0.25) && int(best.Height) > cfg.plen()+2 {
+		// two reorganisations in a row: branch B (mostly blocks that spend nothing) overtakes the active chain,
+		// then branch C, forking inside B, overtakes B - heights are disconnected that were connected by two
+		// different branches before
+		d := uint32(r.Range(2, 4))
+		if fork := best.Ancestor(best.Height - d); fork != nil && fork.Valid() && int(fork.Height) >= cfg.plen() {
+			grow := func(from *ledger.Node, k int, ntx func() int) []*ledger.Node {
+				var res []*ledger.Node
+				cur := from
+				for j := 0; j < k; j++ {
+					b, ok := m.Build(cur, ledger.BlockOpts{NTx: ntx(), InBlockChain: r.Chance(0.3)})
+					if !ok {
+						break
+					}
+					n := l.Add(b, 1<<40)
+					if n == nil || !n.Valid() {
+						break
+					}
+					cfg.Blocks = append(cfg.Blocks, b)
+					made = append(made, n)
+					res = append(res, n)
+					cur = n
+					if n.CumWork.Cmp(best.CumWork) > 0 {
+						best = n
+					}
+				}
+				return res
+			}
+			bn := grow(fork, int(d)+1, func() int { return r.Pick(70, 20, 10) })
+			if len(bn) >= 2 {
+				k := r.Intn(len(bn) - 1)
+				grow(bn[k], len(bn)-k, func() int { return r.Intn(3) })
+			}
+		}
+	}
 	if (prop == "C06" || prop == "C07") && r.Chance(0.3) && int(best.Height) > cfg.plen()+1 {
 		// a side branch that outgrows the active chain but whose j-th block (j>=2) is invalid only in context:
 		// the reorganisation connects j-1 of its blocks, fails, and must end on the most-work valid chain again
 		d := uint32(r.Range(1, 3))
 		if fork := best.Ancestor(best.Height - d); fork != nil && int(fork.Height) >= cfg.plen() {
 			cur, bad := fork, r.Range(2, int(d)+1)
+			second := r.Chance(0.5) // peers send the whole branch a second time later
 			for j := 1; j <= int(d)+1+r.Intn(2); j++ {
 				o := ledger.BlockOpts{NTx: r.Range(1, 4)}
 				if j == bad {
@@ -459,6 +503,9 @@ func (H) Gen(prop string, seed uint64, tier string) *hx.Case {
 				cfg.Blocks = append(cfg.Blocks, b)
 				made = append(made, n)
 				cur = n
+				if second {
+					retry = append(retry, len(cfg.Blocks)-1)
+				}
 			}
 		}
 	}
@@ -536,6 +583,14 @@ func (H) Gen(prop string, seed uint64, tier string) *hx.Case {
 			if prop != "C11" {
 				add(Op{Op: "reopen"})
 			}
+		}
+	}
+	// the branch that failed is offered a second time (a block refused when it was connected may have been
+	// stored before; nothing of what the first attempt left behind may make the second one succeed or crash)
+	for _, bi := range retry {
+		add(Op{Op: "deliver", B: bi})
+		if r.Chance(0.2) {
+			add(Op{Op: "idle"})
 		}
 	}
 	// late arrival: in most histories every lost block turns up in the end (then whole subtrees that were
@@ -799,6 +854,10 @@ func (r *run) deliver(bi int, when string) {
 		}
 	}
 	err, stage, maybeLater := r.n.Deliver(blk.Bytes())
+	if os.Getenv("VSIM_DEBUG") != "" {
+		th, thh := r.n.Tip()
+		fmt.Fprintf(os.Stderr, "DBG %s: block[%d] %s h=%d bits=%08x valid=%v -> err=%v stage=%s later=%v | node tip %s h=%d | model %s h=%d\n", when, bi, hs(hh), ln.Height, blk.H.Bits, ln.Valid(), err, stage, maybeLater, hs(th), thh, hs(r.model.Hash), r.model.Height)
+	}
 	defer r.syncPurged(when)
 	r.out.Probe("deliveries", 1)
 	st := r.status[hh]
